@@ -195,6 +195,37 @@ def FragH (s : Spec.Script) (h : Spec.Handler) : Bool :=
 def FragScript (s : Spec.Script) : Bool :=
   s.factory.isEmpty && s.props.all idOk && s.globals.all idOk && s.handlers.all (FragH s)
 
+/-- a `repeat while` condition whose text does not start with a parenthesis (the decompiler strips the outer parentheses of an
+    infix operation there: other tokens than the reference printer's) -/
+def notInfix : Spec.Expr → Bool
+  | .bin o _ _ => !o.isInfix
+  | _ => true
+
+mutual
+/-- structured statements of the text chain: the simple statements of `FragS`, `if … then … [else …] end if`,
+    `repeat while c` (c no infix operation), `repeat with <local> = a [down] to b`, nested without bound -/
+def FragX : Spec.Stmt → Bool
+  | .set lv v => FragS (.set lv v)
+  | .call f as => FragS (.call f as)
+  | .exit => true
+  | .ifThen c t e => FragE c && FragXs t && FragXs e
+  | .repeatWhile c b => FragE c && notInfix c && FragXs b
+  | .repeatWith (.var .loc v) a b _ body => idOk v && FragE a && FragE b && FragXs body
+  | _ => false
+def FragXs : List Spec.Stmt → Bool
+  | [] => true
+  | s :: ss => FragX s && FragXs ss
+end
+
+def FragHX (s : Spec.Script) (h : Spec.Handler) : Bool :=
+  !h.isMethod && idOk h.name && h.params.all idOk && FragXs h.body
+    && (Spec.Stmt.varsList .prop h.body).all (fun v => s.props.contains v)
+    && (h.globalsUsed s.globals).all idOk
+
+/-- scripts of the structured text chain -/
+def FragScriptX (s : Spec.Script) : Bool :=
+  s.factory.isEmpty && s.props.all idOk && s.globals.all idOk && s.handlers.all (FragHX s)
+
 /-! ### the text the model prints for a source program -/
 
 /-- operator text (`LINGO_BIN_OP`; `sprite... ` stripped for the two prefix forms) -/
@@ -230,16 +261,29 @@ def mArgs : List Spec.Expr → Str
   | e :: es => mE e ++ S ", " ++ mArgs es
 end
 
-/-- one statement line at indentation level `ind` -/
-def mS (ind : Nat) : Spec.Stmt → Str
-  | .set lv v => Lscr.indentOf ind ++ S "set " ++ mE lv ++ S " = " ++ mE v ++ S "\n"
-  | .call f as => Lscr.indentOf ind ++ f ++ (if as.isEmpty then [] else S " " ++ mArgs as) ++ S "\n"
-  | .exit => Lscr.indentOf ind ++ S "exit\n"
-  | _ => []
+/-- the condition of `repeat while`: `if cond.startswith('('): cond = cond[1:-1]` -/
+def mCond (c : Spec.Expr) : Str :=
+  if Lscr.startsWith (mE c) (S "(") then Lscr.stripParens (mE c) else mE c
 
-def mSs (ind : Nat) : List Spec.Stmt → Str
-  | [] => []
-  | s :: ss => mS ind s ++ mSs ind ss
+mutual
+/-- one statement (its lines) at indentation level `ind` -/
+def mS : Nat → Spec.Stmt → Str
+  | ind, .set lv v => Lscr.indentOf ind ++ S "set " ++ mE lv ++ S " = " ++ mE v ++ S "\n"
+  | ind, .call f as => Lscr.indentOf ind ++ f ++ (if as.isEmpty then [] else S " " ++ mArgs as) ++ S "\n"
+  | ind, .exit => Lscr.indentOf ind ++ S "exit\n"
+  | ind, .ifThen c t e =>
+    Lscr.indentOf ind ++ S "if " ++ mE c ++ S " then\n" ++ mSs (ind + 1) t
+      ++ (if e.isEmpty then [] else Lscr.indentOf ind ++ S "else\n" ++ mSs (ind + 1) e) ++ Lscr.indentOf ind ++ S "end if" ++ S "\n"
+  | ind, .repeatWhile c b =>
+    Lscr.indentOf ind ++ S "repeat while " ++ mCond c ++ S "\n" ++ mSs (ind + 1) b ++ Lscr.indentOf ind ++ S "end repeat" ++ S "\n"
+  | ind, .repeatWith v a b down body =>
+    Lscr.indentOf ind ++ S "repeat with " ++ mE v ++ S " = " ++ mE a ++ S " " ++ (if down then S "down to" else S "to") ++ S " " ++ mE b
+      ++ S "\n" ++ mSs (ind + 1) body ++ Lscr.indentOf ind ++ S "end repeat" ++ S "\n"
+  | _, _ => []
+def mSs : Nat → List Spec.Stmt → Str
+  | _, [] => []
+  | ind, s :: ss => mS ind s ++ mSs ind ss
+end
 
 /-- the handler's own globals (used, not declared at script level) in the order `generate_lingo_code` prints them: sorted by
     code points (= the reference printer's insertion sort) -/
